@@ -242,7 +242,9 @@ def gen_history(rng, maxops=60):
             o = [rng.choice(WIDE) for _ in range(m)]
         else:
             o = [float(rng.randrange(side)) for _ in range(m)]
-        c = rng.choice([0.0, 0.0, 0.0, 0.5, 1.0]) if con else 0.0
+        # violations incl. tiny ones (1e-17, 5e-324: not zero, and closer together than machine epsilon), equal pairs,
+        # and -- on UNCONSTRAINED problems -- a stale non-zero attribute that dominance must ignore
+        c = rng.choice([0.0, 0.0, 0.0, 0.5, 0.5, 1.0, 1e-17, 5e-324, 1.0000000000000002]) if con else rng.choice([0.0, 0.0, 0.0, 0.25, 1e-17])
         pool.append((o, c))
     nops = rng.choice([0, 1, 2, 3]) if rng.random() < 0.08 else rng.randrange(0, maxops + 1)
     ops = []
